@@ -115,11 +115,11 @@ void harness (void)
       XV_ASSERT ("C13,C10", out[0] == '*' && out[1] == '0' && out[2] == 0,
                  "failure leaves the failure token untouched");
       XV_ASSERT ("C13,C12", err == EINVAL || err == ERANGE, "failure sets errno to EINVAL or ERANGE");
-      XV_ASSERT ("C12", err != EINVAL || nrbytes < 4,
+      XV_ASSERT ("C12", err != EINVAL || nrbytes < 3,
                  "EINVAL only when the random input is too short for any salt");
       XV_ASSERT ("C13", err != ERANGE || osz < plen + 6,
                  "ERANGE only when the buffer cannot hold prefix + minimal salt");
-      XV_ASSERT ("C13", !(nrbytes >= 4 && osz >= 192), "192 bytes always suffice");
+      XV_ASSERT ("C13", !(nrbytes >= 3 && osz >= 192), "192 bytes always suffice");
       XV_CANARY ("failure path");
       if (err == EINVAL) XV_CANARY ("EINVAL path");
       if (err == ERANGE) XV_CANARY ("ERANGE path");
@@ -153,7 +153,7 @@ void harness (void)
   /* salt: G groups of 4 characters, each the radix-64 encoding of 3 random
      bytes; G is what the documentation implies: as many whole groups as the
      random input, the method's maximum salt length and the buffer allow */
-  size_t g_rb = (nrbytes - 1) / 3;        /* a group is used only while a further byte exists */
+  size_t g_rb = nrbytes / 3;              /* whole 3-byte groups of random input */
   size_t g_max = maxsalt / 4;
   size_t g_room = (osz - plen - 2) / 4;
   size_t G = g_rb < g_max ? g_rb : g_max;
